@@ -31,9 +31,9 @@ import (
 	"github.com/gcash/bchd/bchec"
 	"github.com/gcash/bchd/chaincfg"
 	"github.com/gcash/bchutil"
-	"github.com/gcash/bchutil/base58"
 	"github.com/gcash/bchutil/hdkeychain"
 
+	"verif/harness/cmd/c04/hdref"
 	"verif/harness/internal/vh"
 )
 
@@ -54,10 +54,26 @@ type netIDs struct{ priv, pub [4]byte }
 
 var savedIDs []netIDs
 
+// saveGlobals: the reference identifiers are the CONSTANTS of bchd's chaincfg/params.go (hdref.KnownHDVersions), not
+// what the linked package holds once every init function of the repository under test has run (round 3): a difference at
+// start-up is reported, then repaired by globalsIntact so that the histories themselves are judged on their own.
 func saveGlobals() {
-	for _, n := range nets {
-		savedIDs = append(savedIDs, netIDs{n.HDPrivateKeyID, n.HDPublicKeyID})
+	for i := range nets {
+		savedIDs = append(savedIDs, netIDs{hdref.KnownHDVersions[i].Priv, hdref.KnownHDVersions[i].Pub})
 	}
+}
+
+func checkGlobalsAtStart() {
+	for i, n := range nets {
+		v, err := chaincfg.HDPrivateKeyToPublicKeyID(savedIDs[i].priv[:])
+		rep.Count("globals_at_start", netNames[i], true)
+		if n.HDPrivateKeyID != savedIDs[i].priv || n.HDPublicKeyID != savedIDs[i].pub || err != nil || !bytes.Equal(v, savedIDs[i].pub[:]) {
+			rep.Violate("C15:globals_at_start", "with the repository's packages linked, chaincfg's HD version identifiers of a registered network are not the ones chaincfg declares (an init function or package-level initialiser of the repository wrote them)",
+				map[string]interface{}{"network": netNames[i], "linked_private_id": vh.Hex(n.HDPrivateKeyID[:]), "linked_public_id": vh.Hex(n.HDPublicKeyID[:]),
+					"declared_private_id": vh.Hex(savedIDs[i].priv[:]), "declared_public_id": vh.Hex(savedIDs[i].pub[:]), "HDPrivateKeyToPublicKeyID(declared_private_id)": fmt.Sprintf("%x %v", v, err)})
+		}
+	}
+	globalsIntact() // repair
 }
 
 // refPrivToPub is chaincfg.HDPrivateKeyToPublicKeyID on the saved table
@@ -86,6 +102,20 @@ func globalsIntact() (string, bool) {
 	}
 	return bad, bad == ""
 }
+
+// b58dec / b58enc: the harness's OWN Base58 (hdref, written from the definition).  Until round 3 the mirror and the
+// observations used the repository's base58 package, so that (a) a wrong Encode agreed with itself and (b) the harness's
+// own Decode calls stood between a parse and the next one (a decoder that keeps state across calls was never observed in
+// the state the caller's history alone produces).  b58dec returns nil for a string with a character outside the alphabet,
+// like the empty result of the repository's decoder.
+func b58dec(s string) []byte {
+	d, ok := hdref.B58Decode(s)
+	if !ok {
+		return nil
+	}
+	return d
+}
+func b58enc(b []byte) string { return hdref.B58Encode(b) }
 
 func sha256d(b []byte) []byte {
 	h := sha256.Sum256(b)
@@ -304,7 +334,7 @@ func (k *pure) str() string {
 		return zeroedStr
 	}
 	p := k.payload()
-	return base58.Encode(append(p, sha256d(p)[:4]...))
+	return b58enc(append(p, sha256d(p)[:4]...))
 }
 
 // ---------- operations ----------
@@ -347,7 +377,7 @@ func (o opRec) coq() string {
 	case "NewMaster":
 		return fmt.Sprintf("NewMaster %s %d%%nat", vh.CoqBytes(unhex(o.Seed)), o.Net)
 	case "FromString":
-		return fmt.Sprintf("FromString %s", vh.CoqBytes(base58.Decode(o.Str)))
+		return fmt.Sprintf("FromString %s", vh.CoqBytes(b58dec(o.Str)))
 	case "NewExt":
 		return fmt.Sprintf("NewExt %s %s %s %s %d %d %s", vh.CoqBytes(unhex(o.Ver)), vh.CoqBytes(unhex(o.Key)), vh.CoqBytes(unhex(o.CC)), vh.CoqBytes(unhex(o.FP)), o.Depth, o.Num, vh.CoqBool(o.Priv))
 	case "Child":
@@ -517,7 +547,7 @@ func obsCoq(s string) string {
 	if s == zeroedStr {
 		return "OZeroed"
 	}
-	d := base58.Decode(s)
+	d := b58dec(s)
 	if len(d) < 4 {
 		return "OBytes []"
 	}
@@ -623,7 +653,7 @@ func (ex *exec) apply(o opRec) {
 			}
 		case "FromString":
 			nk, err := hdkeychain.NewKeyFromString(o.Str)
-			pv, e := ex.P.fromString(base58.Decode(o.Str))
+			pv, e := ex.P.fromString(b58dec(o.Str))
 			want = outcome{kind: "Err", n: e}
 			if e == 0 {
 				want = outcome{kind: "Created", n: len(ex.pool)}
@@ -770,7 +800,7 @@ func (ex *exec) apply(o opRec) {
 			if s == zeroedStr {
 				got = outcome{kind: "Zeroed"}
 			} else {
-				d := base58.Decode(s)
+				d := b58dec(s)
 				if len(d) < 5 || !bytes.Equal(sha256d(d[:len(d)-4])[:4], d[len(d)-4:]) {
 					setViol(&violation{"C15:string_format", "String() is not Base58(payload || sha256d(payload)[:4])", map[string]interface{}{"after_step": ex.step, "string": s}})
 					d = append(d, 0, 0, 0, 0)
@@ -957,7 +987,7 @@ func genCreator(r *vh.RNG) opRec {
 			// a well-formed string (checksum recomputed) whose version bytes belong to the OTHER class than its key
 			// data: an xprv version in front of a public key, or an xpub version in front of 00 || scalar.  The parser
 			// does not interpret the version; SetNet must still give such a key the version of its own class.
-			d := base58.Decode(k.String())
+			d := b58dec(k.String())
 			if len(d) == 82 {
 				n := savedIDs[r.Intn(len(nets))]
 				if d[45] == 0 {
@@ -966,7 +996,7 @@ func genCreator(r *vh.RNG) opRec {
 					copy(d[:4], n.priv[:])
 				}
 				copy(d[78:], sha256d(d[:78])[:4])
-				return opRec{Kind: "FromString", Str: base58.Encode(d)}
+				return opRec{Kind: "FromString", Str: b58enc(d)}
 			}
 		}
 		return opRec{Kind: "FromString", Str: k.String()}
@@ -998,6 +1028,110 @@ func genCreator(r *vh.RNG) opRec {
 	}
 }
 
+// genRejected: a creator call that must FAIL and create nothing (round 3, red team): NewKeyFromString of the empty
+// string, of "1"s, of garbage, of the string of a LIVE key (or of a fresh valid key) with a changed character / a
+// character removed or added / a foreign byte, of well-formed strings (checksum recomputed) whose key material is
+// unusable; NewMaster with a seed of illegal length.  The rejected call sits between operations on live keys and every
+// live key is observed after it like after any other step: a failing parse must not disturb anything (a decoder that
+// recycles or wipes the buffer of the previous call, an error path that zeroes "the" key ...).
+func genRejected(r *vh.RNG, pool []*slot) opRec {
+	valid := ""
+	var live []*slot
+	for _, sl := range pool {
+		if sl.pv != nil && len(sl.pv.key) >= 32 && len(sl.pv.ver) == 4 && len(sl.pv.cc) == 32 && len(sl.pv.fp) == 4 {
+			live = append(live, sl)
+		}
+	}
+	if len(live) > 0 && r.Intn(3) != 0 {
+		valid = live[r.Intn(len(live))].pv.str() // the mirror's own rendering of a live key
+	} else {
+		sc := validScalar(r)
+		pv := &pure{ver: clone(savedIDs[r.Intn(len(nets))].priv[:]), key: sc, cc: r.Bytes(32), fp: r.Bytes(4), depth: uint8(r.Intn(5)), num: r.U32(), priv: true}
+		valid = pv.str()
+	}
+	recomputed := func(d []byte) string {
+		copy(d[78:], sha256d(d[:78])[:4])
+		return b58enc(d)
+	}
+	switch r.Intn(16) {
+	case 0, 1:
+		return opRec{Kind: "FromString", Str: ""}
+	case 2:
+		return opRec{Kind: "FromString", Str: strings.Repeat("1", vh.Pick(r, []int{1, 2, 4, 81, 82, 83, 111}))}
+	case 3: // garbage: random bytes, random alphabet characters
+		if r.Bool() {
+			return opRec{Kind: "FromString", Str: string(r.Bytes(1 + r.Intn(120)))}
+		}
+		b := make([]byte, 1+r.Intn(120))
+		for i := range b {
+			b[i] = hdrefAlphabet[r.Intn(58)]
+		}
+		return opRec{Kind: "FromString", Str: string(b)}
+	case 4, 5: // one character changed to another alphabet character: bad checksum
+		b := []byte(valid)
+		pos := 1 + r.Intn(len(b)-1)
+		c := hdrefAlphabet[r.Intn(58)]
+		for c == b[pos] {
+			c = hdrefAlphabet[r.Intn(58)]
+		}
+		b[pos] = c
+		return opRec{Kind: "FromString", Str: string(b)}
+	case 6: // a foreign byte somewhere
+		b := []byte(valid)
+		b[r.Intn(len(b))] = vh.Pick(r, []byte{'0', 'O', 'I', 'l', ' ', '|', 0, 0x80, 0xff, '\n'})
+		return opRec{Kind: "FromString", Str: string(b)}
+	case 7: // wrong length: a character removed / added, a prefix, the string twice
+		switch r.Intn(5) {
+		case 0:
+			return opRec{Kind: "FromString", Str: valid[:len(valid)-1]}
+		case 1:
+			return opRec{Kind: "FromString", Str: valid[1:]}
+		case 2:
+			return opRec{Kind: "FromString", Str: valid + "1"}
+		case 3:
+			return opRec{Kind: "FromString", Str: valid[:r.Intn(len(valid))]}
+		}
+		return opRec{Kind: "FromString", Str: valid + valid}
+	case 8: // well-formed, scalar 0 or >= n
+		d := b58dec(valid)
+		if len(d) == 82 && d[45] == 0 {
+			if r.Bool() {
+				copy(d[46:78], make([]byte, 32))
+			} else {
+				copy(d[46:78], bytes.Repeat([]byte{0xff}, 32))
+			}
+			return opRec{Kind: "FromString", Str: recomputed(d)}
+		}
+		return opRec{Kind: "FromString", Str: ""}
+	case 9: // well-formed, public key with a bad format byte / x = 0
+		d := b58dec(valid)
+		if len(d) == 82 {
+			d[45] = vh.Pick(r, []byte{1, 4, 5, 0xff})
+			if r.Bool() {
+				d[45] = 2
+				copy(d[46:78], make([]byte, 32))
+			}
+			return opRec{Kind: "FromString", Str: recomputed(d)}
+		}
+		return opRec{Kind: "FromString", Str: "1"}
+	case 10: // payload of 77 / 79 bytes with a correct checksum
+		d := b58dec(valid)
+		if len(d) == 82 {
+			p := d[:77]
+			if r.Bool() {
+				p = append(clone(d[:78]), 7)
+			}
+			return opRec{Kind: "FromString", Str: b58enc(append(clone(p), sha256d(p)[:4]...))}
+		}
+		return opRec{Kind: "FromString", Str: "11"}
+	default: // NewMaster with an illegal seed length
+		l := vh.Pick(r, []int{0, 1, 8, 15, 65, 66, 100, 128, 255})
+		return opRec{Kind: "NewMaster", Seed: vh.Hex(r.Bytes(l)), Net: r.Intn(len(nets))}
+	}
+}
+
+const hdrefAlphabet = "123456789ABCDEFGHJKLMNPQRSTUVWXYZabcdefghijkmnopqrstuvwxyz"
+
 // genHistory generates and executes a history step by step (each choice sees the current pool).
 // Families woven in: derive/neuter then SetNet(another net) on a relative; observe (memoise) then Zero;
 // Zero of public keys; operations on zeroed keys.
@@ -1018,6 +1152,8 @@ func genHistory(r *vh.RNG, steps, maxPool int, withOracle bool, deep bool) ([]op
 				k = lastCreated // stay with the relatives of the key just made
 			}
 			switch x := r.Intn(100); {
+			case rejectEvery > 0 && r.Intn(rejectEvery) == 0:
+				o = genRejected(r, e.pool) // a creator that must fail, between operations on live keys (round 3)
 			case x < 24 && room:
 				i := uint32(r.Intn(4))
 				if r.Intn(3) == 0 {
@@ -1073,6 +1209,98 @@ func genHistory(r *vh.RNG, steps, maxPool int, withOracle bool, deep bool) ([]op
 }
 
 var histCount, liveObs int
+
+// rejectEvery: one step in rejectEvery of a random history is a creator call that must be rejected (0: none)
+var rejectEvery = 7
+
+// rejectedBetween: deterministic histories "create a key, let a creator fail, use the key": every kind of live key
+// (master, child, neutered, parsed xprv, parsed xpub, NewExtendedKey) x every kind of failing creator, the failing call
+// directly after the creation and again after the key has been used.
+func rejectedBetween() [][]opRec {
+	seed := "000102030405060708090a0b0c0d0e0f"
+	xprv := "xprv9s21ZrQH143K3QTDL4LXw2F7HEK3wJUD2nW2nRk4stbPy6cq3jPPqjiChkVvvNKmPGJxWUtg6LnF5kejMRNNU3TGtRBeJgk33yuGBxrMPHi"
+	xpub := "xpub661MyMwAqRbcFtXgS5sYJABqqG9YLmC4Q1Rdap9gSE8NqtwybGhePY2gZ29ESFjqJoCu1Rupje8YtGqsefD265TMg7usUDFdp6W1EGMcet8"
+	H := uint32(hdkeychain.HardenedKeyStart)
+	creators := [][]opRec{
+		{{Kind: "NewMaster", Seed: seed}},
+		{{Kind: "NewMaster", Seed: seed, Net: 3}, {Kind: "Child", K: 0, I: H + 1}},
+		{{Kind: "NewMaster", Seed: seed, Net: 5}, {Kind: "Neuter", K: 0}},
+		{{Kind: "FromString", Str: xprv}},
+		{{Kind: "FromString", Str: xpub}},
+		{{Kind: "FromString", Str: xprv}, {Kind: "FromString", Str: xpub}},
+		{{Kind: "NewExt", Ver: "0488ade4", Key: "00000000000000000000000000000000000000000000000000000000000000aa", CC: strings.Repeat("cc", 32), FP: "01020304", Depth: 3, Num: 9, Priv: true}},
+	}
+	bad := []opRec{
+		{Kind: "FromString", Str: ""},
+		{Kind: "FromString", Str: "1"},
+		{Kind: "FromString", Str: strings.Repeat("1", 82)},
+		{Kind: "FromString", Str: "xprv"},
+		{Kind: "FromString", Str: xprv[:len(xprv)-1] + "j"},
+		{Kind: "FromString", Str: xprv[:len(xprv)-1]},
+		{Kind: "FromString", Str: xprv + "1"},
+		{Kind: "FromString", Str: xprv[:30] + "|" + xprv[31:]},
+		{Kind: "FromString", Str: xprv[:30] + "0" + xprv[31:]},
+		{Kind: "FromString", Str: "\x00\xff not base58 at all"},
+		{Kind: "NewMaster", Seed: ""},
+		{Kind: "NewMaster", Seed: "0001"},
+		{Kind: "NewMaster", Seed: strings.Repeat("ab", 65), Net: 3},
+	}
+	var hs [][]opRec
+	for ci, c := range creators {
+		for bi, b := range bad {
+			last := len(c) - 1
+			h := append([]opRec{}, c...)
+			h = append(h, b, opRec{Kind: "String", K: last}, opRec{Kind: "Child", K: last, I: 1}, b, opRec{Kind: "ECPubKey", K: last})
+			if (ci+bi)%2 == 0 {
+				h = append(h, opRec{Kind: "Neuter", K: last}, b, opRec{Kind: "Address", K: last}, opRec{Kind: "Zero", K: 0}, b, opRec{Kind: "String", K: last})
+			}
+			hs = append(hs, h)
+		}
+	}
+	return hs
+}
+
+// allNetsHistories: every kind of key is moved through ALL SIX networks (SetNet, String, Neuter, String of the
+// neutered key, Child), chipnet included, forwards and backwards; the mirror prints with the constants of chaincfg.
+func allNetsHistories() [][]opRec {
+	seed := "000102030405060708090a0b0c0d0e0f"
+	xprv := "xprv9s21ZrQH143K3QTDL4LXw2F7HEK3wJUD2nW2nRk4stbPy6cq3jPPqjiChkVvvNKmPGJxWUtg6LnF5kejMRNNU3TGtRBeJgk33yuGBxrMPHi"
+	xpub := "xpub661MyMwAqRbcFtXgS5sYJABqqG9YLmC4Q1Rdap9gSE8NqtwybGhePY2gZ29ESFjqJoCu1Rupje8YtGqsefD265TMg7usUDFdp6W1EGMcet8"
+	H := uint32(hdkeychain.HardenedKeyStart)
+	creators := [][]opRec{
+		{{Kind: "NewMaster", Seed: seed}},
+		{{Kind: "NewMaster", Seed: seed + "aa", Net: 4}, {Kind: "Child", K: 0, I: H}},
+		{{Kind: "FromString", Str: xprv}},
+		{{Kind: "FromString", Str: xpub}},
+		{{Kind: "NewMaster", Seed: seed, Net: 1}, {Kind: "Neuter", K: 0}},
+	}
+	var hs [][]opRec
+	for ci, c := range creators {
+		for _, back := range []bool{false, true} {
+			k := len(c) - 1
+			h := append([]opRec{}, c...)
+			private := ci <= 2
+			size := len(c) // pool size so far
+			for q := 0; q < len(nets); q++ {
+				net := (ci + q) % len(nets)
+				if back {
+					net = (ci + 2*len(nets) - q) % len(nets)
+				}
+				h = append(h, opRec{Kind: "SetNet", K: k, Net: net}, opRec{Kind: "String", K: k}, opRec{Kind: "Neuter", K: k})
+				if private { // the key Neuter just made (for a public key Neuter returns the same object)
+					h = append(h, opRec{Kind: "String", K: size})
+					size++
+				}
+				if q%2 == 1 {
+					h = append(h, opRec{Kind: "Child", K: k, I: uint32(q)}, opRec{Kind: "String", K: size})
+					size++
+				}
+			}
+			hs = append(hs, h)
+		}
+	}
+	return hs
+}
 
 func runAndRecord(ops []opRec, family string, corr bool, deep bool) {
 	record(ops, runHistory(ops, corr, deep), family, corr, deep)
@@ -1164,16 +1392,37 @@ func leadingZeroChildren(seed []byte, zeros int, maxTries int) (idx []uint32) {
 
 // leadingZeroHistories: derive a child whose private key has leading zero bytes, then use THAT object: hardened and
 // normal grandchildren, its string parsed back and derived from as well, Neuter, Zero of relatives.
+// lz3: children of the master of a seed whose private key has THREE leading zero bytes (2^-24 per index), found once by
+// cmd/c04/lzscan with the independent reference and cached here (round 3); re-checked with the mirror before use.
+var lz3 = map[string][]uint32{
+	"000102030405060708090a0b0c0d0e0f": {2150775374, 28672661},
+	"433034206368696c6472656e2077697468207468726565206c656164696e67207a65726f206279746573": {2148998315, 2339335},
+}
+
 func leadingZeroHistories(quick bool) [][]opRec {
 	var hs [][]opRec
 	H := uint32(hdkeychain.HardenedKeyStart)
-	for si, seedHex := range []string{"000102030405060708090a0b0c0d0e0f", "4c6561642d7a65726f2d6368696c6472656e2d6f662d433135"} {
+	seeds := []string{"000102030405060708090a0b0c0d0e0f", "4c6561642d7a65726f2d6368696c6472656e2d6f662d433135", "433034206368696c6472656e2077697468207468726565206c656164696e67207a65726f206279746573"}
+	for si, seedHex := range seeds {
 		seed := unhex(seedHex)
-		for _, zeros := range []int{1, 2} {
+		for _, zeros := range []int{1, 2, 3} {
 			if zeros == 2 && quick && si > 0 {
 				continue
 			}
-			for _, i := range leadingZeroChildren(seed, zeros, 400000) {
+			var idx []uint32
+			if zeros == 3 {
+				P := prims{}
+				if m, e := P.master(seed, 0); e == 0 {
+					for _, i := range lz3[seedHex] {
+						if c, e := P.child(m, i); e == 0 && allZero(c.key[:3]) {
+							idx = append(idx, i)
+						}
+					}
+				}
+			} else if si < 2 {
+				idx = leadingZeroChildren(seed, zeros, 400000)
+			}
+			for _, i := range idx {
 				var str string
 				if m, err := hdkeychain.NewMaster(seed, nets[0]); err == nil {
 					if c, err := m.Child(i); err == nil {
@@ -1229,6 +1478,7 @@ func main() {
 	rep.Rule = "random histories over a pool of at most 4..6 extended keys (NewMaster / NewKeyFromString / NewExtendedKey on fresh buffers / Child / Neuter / SetNet / Zero / String / ECPubKey / ECPrivKey / Address), every key observed after every step; implementation executions = operations applied; a history is non-trivial when it uses at least three kinds of operation and applies some operation after a Zero; distinct by the operation sequence"
 	cases = vh.NewCases(cfg, "Run.Run_C15", 12)
 	rng := vh.NewRNG(cfg.Seed)
+	checkGlobalsAtStart()
 
 	if cfg.Replay != "" {
 		raw, err := os.ReadFile(cfg.Replay)
@@ -1258,6 +1508,14 @@ func main() {
 	for hi, h := range lz {
 		runAndRecord(h, "leading_zero_child", !cfg.Search && hi < 4, true) // one and two zero bytes, hardened and normal, of the first seed
 		runAndRecord(h, "leading_zero_child_shallow", false, false)
+	}
+	for hi, h := range rejectedBetween() {
+		runAndRecord(h, "rejected_creator_between", !cfg.Search && hi%13 == 0, true)
+		runAndRecord(h, "rejected_creator_between_shallow", false, false)
+	}
+	for hi, h := range allNetsHistories() {
+		runAndRecord(h, "all_six_nets", !cfg.Search && hi%4 == 0, true)
+		runAndRecord(h, "all_six_nets_shallow", false, false)
 	}
 	for _, h := range fixedHistories() {
 		runAndRecord(h, "fixed", !cfg.Search, true)
